@@ -308,7 +308,7 @@ def _tamoc():
 def run(ctx, lean_ok):
     warnings.filterwarnings('ignore')
     tam = _tamoc()
-    nscn = ctx.n(8, 64)
+    nscn = ctx.n(8, 160)
     sims = []
     lines = []
     corr = []
